@@ -143,12 +143,7 @@ def protos():
             with open(tmp, 'w') as f:
                 json.dump(_protos, f)
             os.rename(tmp, path)
-            for e in os.listdir(d):
-                if e.startswith('protos-') and os.path.join(d, e) != path:
-                    try:
-                        os.remove(os.path.join(d, e))
-                    except OSError:
-                        pass
+            build.prune_old(d, 'protos-', path)
     return _protos
 
 
